@@ -180,7 +180,11 @@ def gen_spec(rng, fx, k, counters):
         slot = rng.randrange(2)
         oid = "c%d-%s-%d" % (k, okind, slot)
         s.update(kind=okind, obj_id=oid)
-        if okind == "imager":
+        if okind == "imager" and rng.random() < 0.35:
+            # an imager built with the library's default parameters (one per client and slot)
+            s.update(obj_id="c%d-imager-default-%d" % (k, slot), ctor="default")
+            m = rng.choice(("transform", "transform", "fit_transform", "kparams[]=", "kparams[]=", "wparams[]="))
+        elif okind == "imager":
             s["ctor"] = slot % 2
             m = rng.choice(("fit", "transform", "transform", "fit_transform", "pixel_size=", "birth_range=", "pers_range="))
         else:
@@ -197,6 +201,10 @@ def gen_spec(rng, fx, k, counters):
             call["val"] = rng.choice(([0.0, 1.0], [-1.0, 2.0], [0.0, 4.0]))
         elif m == "pers_range=":
             call["val"] = rng.choice(([0.0, 1.0], [0.0, 2.5], [0.5, 3.0]))
+        elif m == "kparams[]=":
+            call["val"] = rng.choice((0.05, 0.5, [[0.25, 0.0], [0.0, 0.25]], [[1.0, 0.5], [0.5, 1.0]]))
+        elif m == "wparams[]=":
+            call["val"] = rng.choice((2.0, 0.5, 3.0))
         else:
             n = rng.randint(1, 3)
             call.update(ds=[rng.randrange(nd) for _ in range(n)], skew=rng.random() < 0.8,
@@ -497,7 +505,7 @@ def run_case(case, sched):
                                         ("seeded-rng" if spec["fn"] == "gromov_hausdorff" else "value") + "/" + rep_tag(spec),
                                         "result differs from the same call executed alone in a fresh process at %s "
                                         "(history position %d, env %s)" % (where, opi, env), opi)
-            if spec["fn"] == "obj" and spec["call"]["m"] in ("fit", "fit_transform", "pixel_size=", "birth_range=", "pers_range="):
+            if spec["fn"] == "obj" and spec["call"]["m"] in ("fit", "fit_transform", "pixel_size=", "birth_range=", "pers_range=", "kparams[]=", "wparams[]="):
                 prefix.setdefault(spec["obj_id"], []).append(copy.deepcopy(spec["call"]))
             # ---- representation independence
             alt = op.get("alt_rep")
